@@ -440,8 +440,12 @@ def run_manager_case(case):
                 res["reaction_skipped"] = "defining the expected manager directly raised " + err
                 cp = dict(cp, followups=[])
             # bring both to the same data state: run every task once
+            def run_all(mm):
+                order = mm.find_tasks()
+                mm.run_tasks([t for t in mm.tasks.values() if t not in order])   # definitions without dependencies
+                mm.run_tasks(order)
             for mm in (m3, m4):
-                safe(lambda: mm.run_tasks(mm.find_tasks()))
+                safe(lambda: run_all(mm))
             for i, (tgt, val) in enumerate(cp.get("followups", [])):
                 e3 = safe(lambda: apply_assign(ns3, tgt, val))
                 e4 = safe(lambda: apply_assign(ns4, tgt, val))
